@@ -1,4 +1,5 @@
 import KitModel.Go.Prelude
+import KitModel.Generated.C16
 /-!
 Executable model of `github.com/dapr/kit/streams`:
 `LimitReadCloser`, `MultiReaderCloser`, `TeeReadCloser` over *scripted sources*.
@@ -38,6 +39,16 @@ def showErr : Option Err → String
 inductive Version where
   | orig | fixed
   deriving DecidableEq, Repr
+
+/-- Which version the current source of `/repo/streams` is, according to the facts `factgen_c16`
+re-extracts on every run (T1): the too-large guard, the clip guard, whether `WriteTo` closes.
+`none` = a mixture the theorems do not cover. -/
+def sourceVersion : Option Version :=
+  match Generated.C16.limitTooLargeOnEOF, Generated.C16.limitClipOverflowSafe,
+        Generated.C16.writeToClosesCopied with
+  | true, true, true => some .fixed
+  | false, false, false => some .orig
+  | _, _, _ => none
 
 /-! ### scripted source -/
 
@@ -210,7 +221,8 @@ def copyLoop (m : Nat) : Nat → Src → Wr → Src × Wr × Option Err
         | some e => (s', w, some e)
         | none => copyLoop m fuel s' w
 
-def copyBufSize : Nat := 32768
+/-- `make([]byte, 1024*32)` in `WriteTo` — regenerated from the source on every run (T1). -/
+def copyBufSize : Nat := Generated.C16.writeToBufSize
 
 def copyBuffer (s : Src) (w : Wr) : Src × Wr × Option Err :=
   copyLoop copyBufSize (s.size + 1) s w
